@@ -190,6 +190,19 @@ func negSystematic(g *Gen, o *Out) {
 		// comes before / after the matching element: `in` and `not in` must fail or succeed together
 		datum := map[string]interface{}{"v": e.val, "s": sl.Interface(), "a": arr.Interface(), "i": []interface{}{other.Interface(), e.val},
 			"j": []interface{}{other.Interface(), map[string]interface{}{"k": "v"}, e.val}, "k": []interface{}{e.val, []interface{}{1}, other.Interface()}}
+		// matches / not matches on every string-like and byte-sequence shape of the value
+		if ev.Kind() == reflect.String || (ev.Kind() == reflect.Slice && ev.Type().Elem().Kind() == reflect.Uint8) {
+			bs := []byte("1")
+			if ev.Kind() == reflect.String {
+				bs = []byte(ev.String())
+			}
+			seq := map[string]interface{}{"v": e.val, "b": bs, "mb": MyBytes(bs), "oc": MyOctets{Octet('1')}, "pb": &bs, "ib": interface{}(bs), "ar": [1]byte{'1'}, "st": string(bs), "ms": MyStr(bs)}
+			for _, key := range []string{"v", "b", "mb", "oc", "pb", "ib", "ar", "st", "ms"} {
+				for _, pat := range []string{"^1", "1$", "^$", ".*", "Value", "uint8", "^x", "(", "[z-a]", ""} {
+					pair(GMatch{Path: []string{key}, Op: "matches", Raw: pat, LitStyle: 3}, seq, "matches on "+key+" of "+e.name)
+				}
+			}
+		}
 		lits := append(g.literalsFor(ev), g.literalsFor(other)...)
 		for _, lit := range lits {
 			pair(GMatch{Path: []string{"v"}, Op: "eq", Raw: lit, LitStyle: 2}, datum, e.name)
@@ -425,6 +438,26 @@ func fragAbsent(g *Gen, n int, o *Out) {
 			r, text, ok := evalG(g, o, nil, m, root)
 			if ok && norm(r) != "E" && r != "P" {
 				o.finding(Finding{Property: "C05", Kind: "failing-input", What: fmt.Sprintf("%v must be an error, %s gives %s", ep, op, r), Request: lastReq(o), Detail: text})
+			}
+		}
+		// an unknown value substitutes for ABSENT keys and fields only: an index out of range, a step into a
+		// scalar and an unparsable index stay errors whatever unknown value is configured
+		{
+			jd := map[string]interface{}{"name": "web", "tags": []interface{}{"primary", "x"}, "ports": []int{80}, "meta": map[string]interface{}{"env": "prod", "l": []interface{}{1.0}}}
+			hard := [][]string{{"tags", "3"}, {"tags", "2"}, {"ports", "1"}, {"meta", "l", "7"}, {"name", "x"}, {"meta", "env", "k"}, {"tags", "x"}, {"tags", "-1"}, {"ports", "99999999999999999999"}, {"tags", "0", "q"}}
+			hp := hard[g.r.Intn(len(hard))]
+			op := matchOps[g.r.Intn(len(matchOps))]
+			u := []interface{}{"none", "", 1, nil, []interface{}{"x"}, map[string]interface{}{"a": 1}}[g.r.Intn(6)]
+			for _, sty := range []int{1, 2} {
+				m := GMatch{Path: hp, Op: op, Raw: "none", SelStyle: sty}
+				r, text, ok := evalG(g, o, []OptSpec{{Kind: "unk", Unk: u}}, m, jd)
+				if ok && norm(r) != "E" && r != "P" {
+					o.finding(Finding{Property: "C05", Kind: "failing-input", What: fmt.Sprintf("%v is not an absent key or field, yet with the unknown value %#v %s gives %s instead of an error", hp, u, op, r), Request: lastReq(o), Detail: text})
+				}
+			}
+			c := GColl{Op: []string{"all", "any"}[g.r.Intn(2)], Path: hp, Mode: "default", Def: "x", Inner: GMatch{Path: []string{"x"}, Op: "eq", Raw: "none"}}
+			if r, text, ok := evalG(g, o, []OptSpec{{Kind: "unk", Unk: u}}, c, jd); ok && norm(r) != "E" && r != "P" {
+				o.finding(Finding{Property: "C05", Kind: "failing-input", What: fmt.Sprintf("%v is not an absent key or field, yet with the unknown value %#v %s over it gives %s instead of an error", hp, u, c.Op, r), Request: lastReq(o), Detail: text})
 			}
 		}
 		// expressions whose selectors all resolve are unaffected by an unknown value
